@@ -587,6 +587,9 @@ def merge_lines(lines: List[pdm.PageXMLTextLine], remove_word_break: bool = Fals
     coords = pagexml.model.coords.parse_derived_coords(lines)
     text = ''
     for li, curr_line in enumerate(lines):
+        if curr_line.text is None or curr_line.text == '':
+            # a line without text adds nothing
+            continue
         if remove_word_break and len(text) > 0 and text.endswith(word_break_char):
             if curr_line.text[0].islower():
                 # remove hyphen
